@@ -1,14 +1,18 @@
 ----------------------------- MODULE SyncHB_MC -----------------------------
 EXTENDS SyncHB
-CONSTANTS SysName, IsMin, MRA, Vals, Faults, MaxRun, MaxFaults
+CONSTANTS SysName, IsMin, MRA, Vals, Faults, MaxRun, MaxFaults, DE, PR
 \* rung systems: sequences of brackets, each a sequence of <<size, level>> (cfg files cannot hold sequences)
 SysTable ==
   [ sh31   |-> << << <<3, 1>>, <<1, 3>> >> >>,                                         \* one bracket, successive halving
     hb31   |-> << << <<3, 1>>, <<1, 3>> >>, << <<2, 3>> >> >>,                         \* geometric(1, 3, 3)
     hb421  |-> << << <<4, 1>>, <<2, 2>>, <<1, 4>> >>, << <<3, 2>>, <<1, 4>> >>, << <<3, 4>> >> >>,   \* geometric(1, 4, 2)
     cust   |-> << << <<3, 1>>, <<2, 2>>, <<1, 3>> >>, << <<2, 2>>, <<1, 3>> >> >>,     \* custom sizes
-    sh22   |-> << << <<2, 1>>, <<1, 2>> >> >> ]
-Conf == [sys |-> SysTable[SysName], min |-> IsMin, mra |-> MRA, vals |-> Vals, faults |-> Faults]
+    sh22   |-> << << <<2, 1>>, <<1, 2>> >> >>,
+    \* DEHB: the rung systems of the later brackets are suffixes of the first bracket's
+    de31   |-> << << <<3, 1>>, <<1, 3>> >>, << <<1, 3>> >> >>,
+    de321  |-> << << <<3, 1>>, <<2, 2>>, <<1, 4>> >>, << <<2, 2>>, <<1, 4>> >>, << <<1, 4>> >> >>,
+    de31one |-> << << <<3, 1>>, <<1, 3>> >> >> ]
+Conf == [sys |-> SysTable[SysName], min |-> IsMin, mra |-> MRA, vals |-> Vals, faults |-> Faults, de |-> DE, pr |-> PR]
 Init == InitCommon(Conf)
 Spec == Init /\ [][Next]_vars
 Workers == /\ Cardinality({t \in Trials : st[t] = "running"}) <= MaxRun
